@@ -1,0 +1,14 @@
+// Copyright 2024 The Go Authors. All rights reserved.
+// Use of this source code is governed by a BSD-style
+// license that can be found in the LICENSE file.
+
+//go:build verif
+
+package modfile
+
+// ParseSyntax exposes the syntax-only parser to the verification harness
+// (build tag verif), so the syntax layer can be exercised on inputs the
+// directive layer rejects.
+func ParseSyntax(file string, data []byte) (*FileSyntax, error) {
+	return parse(file, data)
+}
